@@ -1,6 +1,7 @@
 package main
 
 import (
+	"strconv"
 	"fmt"
 	"sort"
 	"go/constant"
@@ -766,6 +767,9 @@ func (g *Gen) calleeWrites(callee *ssa.Function, con *Contract, env *Env) (map[s
 		}
 		if g.eng.isTarget(callee) {
 			for k, w := range g.eng.writeSet(callee) {
+				if strings.HasPrefix(k, "IT.") {
+					continue // iteration state belongs to one activation: a (recursive) callee has its own
+				}
 				if _, ok := ws[k]; !ok {
 					_ = w
 					if _, known := g.regions[k]; !known {
@@ -786,6 +790,9 @@ func (g *Gen) calleeWrites(callee *ssa.Function, con *Contract, env *Env) (map[s
 		return ws, targets
 	}
 	for k, w := range g.eng.writeSet(callee) {
+		if strings.HasPrefix(k, "IT.") {
+			continue
+		}
 		ws[k] = w
 	}
 	return ws, targets
@@ -1486,4 +1493,42 @@ func (g *Gen) dynCallSiteObls(st *BState, in ssa.Instruction, c *ssa.CallCommon,
 		t := g.trBool(cl.Expr, env, cl)
 		g.addObl(st, "A", a+":"+cl.Name, pos, g.clauseProps(cl, g.allProps()), t, cl.Src)
 	}
+}
+
+// labelExists: does the function contain a call site named name#n (same numbering as callOrdinal)?
+func (g *Gen) labelExists(label string) bool {
+	i := strings.LastIndex(label, "#")
+	if i < 0 {
+		return false
+	}
+	name := label[:i]
+	n, err := strconv.Atoi(label[i+1:])
+	if err != nil || n < 1 {
+		return false
+	}
+	cnt := 0
+	for _, b := range g.fn.Blocks {
+		for _, x := range b.Instrs {
+			ci, ok := x.(ssa.CallInstruction)
+			if !ok {
+				continue
+			}
+			c := ci.Common()
+			cn := ""
+			if c.IsInvoke() {
+				cn = c.Method.Name()
+			} else if sc := c.StaticCallee(); sc != nil {
+				cn = sc.Name()
+				if fw, _, ok := g.eng.forwarder(sc, c.Args); ok && g.eng.isForwarder(sc) {
+					cn = fw.Name()
+				}
+			} else if _, isB := c.Value.(*ssa.Builtin); !isB {
+				cn = dynName(c.Value)
+			}
+			if cn == name {
+				cnt++
+			}
+		}
+	}
+	return n <= cnt
 }
